@@ -42,13 +42,13 @@ Print Assumptions C04_bool_any_nonzero.
 Theorem C04_int : forall v, int_ok v -> atoi (itoa_z v) = Some v.
 Proof. exact atoi_itoa_z_all. Qed.
 Print Assumptions C04_int.
-Theorem C04_colour_written : forall c, color_ok c -> parse_color (format_color c) = Ok (Some c).
+Example C04_colour_written : forall c, color_ok c -> parse_color (format_color c) = Ok (Some c).
 Proof. exact parse_color_format. Qed.
 Print Assumptions C04_colour_written.
-Theorem C04_colour_hex_upper : forall c, color_ok c -> parse_color (amp_h ++ map hex_upper (color_string c)) = Ok (Some c).
+Example C04_colour_hex_upper : forall c, color_ok c -> parse_color (amp_h ++ map hex_upper (color_string c)) = Ok (Some c).
 Proof. exact parse_color_hex_upper. Qed.
 Print Assumptions C04_colour_hex_upper.
-Theorem C04_colour_decimal : forall c, color_ok c -> parse_color (itoa_z (color_value c)) = Ok (Some c).
+Example C04_colour_decimal : forall c, color_ok c -> parse_color (itoa_z (color_value c)) = Ok (Some c).
 Proof. exact parse_color_decimal. Qed.
 Print Assumptions C04_colour_decimal.
 Theorem C04_number : forall z, float_ok z -> parse_float3 (format_float3 z) = Some z.
@@ -60,7 +60,7 @@ Print Assumptions C04_timer.
 Theorem C04_time_written : forall t, (0 <= t <= max_int64)%Z -> parse_time (format_ssa t) = Some (t - t mod 10000000)%Z.
 Proof. exact parse_time_format. Qed.
 Print Assumptions C04_time_written.
-Theorem C04_time_one_digit_hour : forall h m s c, (0 <= h <= 9)%Z -> (0 <= m < 60)%Z -> (0 <= s < 60)%Z -> (0 <= c < 100)%Z ->
+Example C04_time_one_digit_hour : forall h m s c, (0 <= h <= 9)%Z -> (0 <= m < 60)%Z -> (0 <= s < 60)%Z -> (0 <= c < 100)%Z ->
   parse_time (itoa_z h ++ [58%N] ++ two m ++ [58%N] ++ two s ++ [46%N] ++ two c) =
   Some (h * hour_ns + m * minute_ns + s * second_ns + c * 10000000)%Z.
 Proof. exact parse_time_h_mm_ss_cc. Qed.
@@ -253,7 +253,7 @@ Theorem C04_read_spaced : forall hi b keys styles he fe erows e,
   read_ssa_lines (spaced_lines hi b keys styles he fe erows) e = read_ssa_lines (rendered_lines hi b keys styles he fe erows) e.
 Proof. exact read_spaced. Qed.
 Print Assumptions C04_read_spaced.
-Theorem C04_rendering_ok_reads : forall hi b keys styles he fe erows scols ecols,
+Example C04_rendering_ok_reads : forall hi b keys styles he fe erows scols ecols,
   rendering_ok hi b keys styles he fe erows scols ecols ->
   read_ssa_lines (rendered_lines hi b keys styles he fe erows) false = Ok (rendering_denotes b styles erows).
 Proof. exact read_rendered_ok. Qed.
@@ -471,7 +471,7 @@ Theorem C04_time_any_hours : forall (k : nat) h m s c, (0 <= h)%Z -> (0 <= m < 6
   Some (h * hour_ns + m * minute_ns + s * second_ns + c * 10000000)%Z.
 Proof. exact parse_time_hh_mm_ss_cc. Qed.
 Print Assumptions C04_time_any_hours.
-Theorem C04_time_two_digit_hours : forall h m s c, (0 <= h < 100)%Z -> (0 <= m < 60)%Z -> (0 <= s < 60)%Z -> (0 <= c < 100)%Z ->
+Example C04_time_two_digit_hours : forall h m s c, (0 <= h < 100)%Z -> (0 <= m < 60)%Z -> (0 <= s < 60)%Z -> (0 <= c < 100)%Z ->
   parse_time (two h ++ [58%N] ++ two m ++ [58%N] ++ two s ++ [46%N] ++ two c) =
   Some (h * hour_ns + m * minute_ns + s * second_ns + c * 10000000)%Z.
 Proof. exact parse_time_two_hours. Qed.
@@ -492,7 +492,7 @@ Theorem C04_event_row_spellings : forall cols init last ev, event_row cols init 
 Proof. exact event_row_spelling. Qed.
 Print Assumptions C04_event_row_spellings.
 (* audit item g *)
-Theorem C04_float_cells_in_domain : forall x src cell, cell_denotes (AF x) src cell -> cell = [] \/ float_cell_in_domain cell.
+Example C04_float_cells_in_domain : forall x src cell, cell_denotes (AF x) src cell -> cell = [] \/ float_cell_in_domain cell.
 Proof. exact cell_denotes_float_in_domain. Qed.
 Print Assumptions C04_float_cells_in_domain.
 Theorem C04_style_row_floats_in_domain : forall cols cells st, style_row cols cells st -> Forall2 float_col_in_domain cols cells.
@@ -564,7 +564,7 @@ Theorem C04_dialogue_rows : forall pre secs, adoc_ok pre secs ->
   filter is_dialogue (flat_map asec_events secs) = flat_map asec_dialogues secs.
 Proof. exact dialogue_rows. Qed.
 Print Assumptions C04_dialogue_rows.
-Theorem C04_read_sections_again : forall b secs e, info_ok b ->
+Example C04_read_sections_again : forall b secs e, info_ok b ->
   match secs with [] => True | x :: r => rsec_ok true x /\ Forall (rsec_ok false) r end ->
   comments_of (flat_map entries_of secs) = an_comments b -> (forall f, In (IK f) (flat_map entries_of secs)) ->
   let sts := flat_map styles_of secs in
@@ -603,6 +603,181 @@ Theorem C04_rewrite_sections_all : forall b pre secs, info_ok b -> adoc_ok pre s
 Proof. exact rewrite_sections_all. Qed.
 Print Assumptions C04_rewrite_sections_all.
 
+(* ---- CORRECTION to the header of this file (second audit, N7): what is compared outside the faithful domain ----
+   The header says that ParseFloat inputs outside the model's domain "are answered Err EOther and compared by result class
+   only".  What the harness really compares there (harness/core.go, observations whose model answer starts with NS) is
+   WEAKER: only whether the call PANICS -- model class Panic against a panic of the library.  The Ok / Err distinction is not
+   compared, and must not be: the model is not faithful there (witness: the style row [Style: s,12.3456] -- Go accepts it,
+   storing 12.3456; the model answers Err EOther).  So outside the domain nothing is claimed about the library beyond
+   "no panic" (C08); inside it values are compared exactly.  The domain itself is explicit: C04_float_cells_in_domain,
+   C04_number_spellings (every float cell a theorem quantifies over lies inside). *)
+
+(* ---- second audit, item (i)10: instances are Examples ----
+   The following statements are instances or repackagings of general theorems of this file and are therefore stated as
+   Examples (they keep their names; they are not counted as theorems of the property):
+   C04_colour_written, C04_colour_hex_upper, C04_colour_decimal (instances of C04_colour_spellings / C04_colour_hex_any_case /
+   C04_colour_decimal_any); C04_time_one_digit_hour, C04_time_two_digit_hours (instances of C04_time_any_hours);
+   C04_rendering_ok_reads (C04_read_rendered under the packaging rendering_ok); C04_read_sections_again (the statement of
+   C04_read_sections re-derived from C04_read_sections_all: a consistency check); C04_float_cells_in_domain (the one-cell
+   case of C04_style_row_floats_in_domain). *)
+(* ---- the scanner's line limit (second audit, item N3; Proofs/LineBound.v, Proofs/LineBoundSsa.v) ----
+   The document theorems above are stated on the unbounded line splitter (read_ssa data = read_ssa_lines (lines data) false;
+   "for ALL values (no size bound)").  The real reader takes its lines from a bufio.Scanner with the default buffer: a line of
+   65536 bytes or more makes ReadFromSSA fail with bufio.ErrTooLong -- and an event is ONE line: "Dialogue: ", the cells,
+   and the whole text with its line breaks spelled \N.  A document whose one event has 65484 letters of text (a row of 65536
+   bytes) satisfies doc_repr; the library writes it and cannot read it back, so C04_write_read(_any_order), C04_rewrite*,
+   C04_write_denotes, C04_eol -- and C04_read_rendered, C04_read_sections(_all) once their lines are taken from bytes -- are
+   true of the library only below that size.  The statements that are true of the library carry the line bound; they are
+   about read_ssa_lim max data counts = the reader over the limit-aware scanner of C17 (buffer of max bytes -- the real value
+   is max_scan_token = 65536 --, delivery schedule counts), for EVERY max and EVERY schedule (lines_within: every line two
+   bytes shorter than the buffer, the bound of C17_readers_within_limit, enough for all three line ends; lines_within_lf: one
+   byte shorter, exact for the LF-terminated bytes of the writer; line_beyond_lf: some line of max bytes or more):
+   C04_write_read_within_limit, C04_write_read_any_order_within_limit   the round trip, bound on the written bytes;
+   C04_write_read_exact_limit       the writer's bytes are read back when no line of doc_lines d has max bytes or more, and
+                                    REFUSED (an error, never a shorter document) when one has;
+   C04_rewrite_within_limit, C04_rewrite_any_order_within_limit   write, read under the limit, write again: the same bytes
+                                    (hence read under the limit exactly as the first file);
+   C04_read_rendered_within_limit, C04_read_sections_all_within_limit, C04_eol_within_limit   every rendering given as bytes,
+                                    every line end (C04_eol_within_limit transports every line-level theorem of this file);
+   C04_written_lines_within_limit, C04_event_rows_within_limit, C04_event_row_length   the bound on doc_lines d block by block;
+                                    an event row has at most 10 + the cell lengths + one comma per cell bytes;
+   C04_refused_beyond_limit         the refusal without representability;
+   C04_line_bound_sharp             one event with n letters of text (row = 52 + n bytes; representable for every n > 0): read
+                                    back iff 52 + n + 1 <= max, for every max >= 81 and every schedule;
+   C04_needs_line_bound             the same by computation on a buffer of 128 bytes, with the error returned (EIO); 75 letters
+                                    pass with LF and fail once the lines end in CR LF;
+   C04_real_line_bound              the real constant: a row of 65535 bytes is read back, one of 65536 bytes refused, under
+                                    every schedule, while the document with the 65536-byte row satisfies doc_repr.
+   Replayed on the library by the harness suite ssa.linebound (rows of 65533 .. 65537 bytes). *)
+From Astisub Require Import Kit.ScanLim Proofs.ScanLimProofs Proofs.LineBound Proofs.LineBoundSsa.
+
+Theorem C04_write_read_within_limit : forall (max : nat) d, (0 < max)%nat -> doc_repr d ->
+  forall data, write_ssa d (style_keys d) = Ok data -> lines_within max (lines data) ->
+  forall counts, read_ssa_lim max data counts = Ok (canon_doc d).
+Proof. exact write_read_ssa_within. Qed.
+Print Assumptions C04_write_read_within_limit.
+
+Theorem C04_write_read_any_order_within_limit : forall (max : nat) d order, (0 < max)%nat -> doc_repr d ->
+  Permutation order (style_keys d) ->
+  forall data, write_ssa d order = Ok data -> lines_within max (lines data) ->
+  forall counts, read_ssa_lim max data counts = Ok (canon_doc d).
+Proof. exact write_read_ssa_any_order_within. Qed.
+Print Assumptions C04_write_read_any_order_within_limit.
+
+Theorem C04_write_read_exact_limit : forall (max : nat) d, (0 < max)%nat -> doc_repr d ->
+  exists data, write_ssa d (style_keys d) = Ok data /\
+    (lines_within_lf max (doc_lines d) -> forall counts, read_ssa_lim max data counts = Ok (canon_doc d)) /\
+    (line_beyond_lf max (doc_lines d) -> forall counts, exists k, read_ssa_lim max data counts = Err k).
+Proof. exact write_read_ssa_exact. Qed.
+Print Assumptions C04_write_read_exact_limit.
+
+Theorem C04_rewrite_within_limit : forall (max : nat) d, (0 < max)%nat -> doc_repr d -> lines_within_lf max (doc_lines d) ->
+  exists data d', write_ssa d (style_keys d) = Ok data /\
+                  (forall counts, read_ssa_lim max data counts = Ok d') /\
+                  write_ssa d' (style_keys d') = Ok data.
+Proof. exact rewrite_ssa_within. Qed.
+Print Assumptions C04_rewrite_within_limit.
+
+Theorem C04_rewrite_any_order_within_limit : forall (max : nat) d order, (0 < max)%nat -> doc_repr d ->
+  Permutation order (style_keys d) -> lines_within_lf max (doc_lines d) ->
+  exists data d', write_ssa d order = Ok data /\
+                  (forall counts, read_ssa_lim max data counts = Ok d') /\
+                  (forall order', Permutation order' (style_keys d') -> write_ssa d' order' = Ok data).
+Proof. exact rewrite_ssa_any_order_within. Qed.
+Print Assumptions C04_rewrite_any_order_within_limit.
+
+Theorem C04_read_rendered_within_limit : forall (max : nat) e hi b keys styles he fe erows scols ecols,
+  (0 < max)%nat -> eol_ok e ->
+  section_hdr true hi SInfo -> info_ok b -> (forall f, In f keys) ->
+  match styles with
+  | Some (hs, fs, srows) => section_hdr false hs SStyles /\ format_value fs scols /\ scols <> [] /\
+                            Forall (fun p : list str * astyle => style_row scols (fst p) (snd p)) srows
+  | None => True
+  end ->
+  section_hdr false he SEvents -> format_value fe ecols -> ecols <> [] ->
+  Forall (fun p : (list str * str) * aevent => event_row ecols (fst (fst p)) (snd (fst p)) (snd p)) erows ->
+  Forall brkfree (rendered_lines hi b keys styles he fe erows) -> lines_within max (rendered_lines hi b keys styles he fe erows) ->
+  let sts := match styles with Some (_, _, srows) => map snd srows | None => [] end in
+  forall counts, read_ssa_lim max (render_eol e (rendered_lines hi b keys styles he fe erows)) counts =
+    Ok (mkAdoc (Some b) (styles_map sts) (map (fun ev => event_item ev (styles_map sts)) (map snd erows))).
+Proof. exact read_rendered_ssa_within. Qed.
+Print Assumptions C04_read_rendered_within_limit.
+
+Theorem C04_read_sections_all_within_limit : forall (max : nat) e b pre secs, (0 < max)%nat -> eol_ok e ->
+  info_ok b -> adoc_ok pre secs ->
+  comments_of (adoc_entries pre secs) = an_comments b -> (forall f, In (IK f) (adoc_entries pre secs)) ->
+  Forall brkfree (adoc_lines b pre secs) -> lines_within max (adoc_lines b pre secs) ->
+  let sts := flat_map asec_styles secs in
+  forall counts, read_ssa_lim max (render_eol e (adoc_lines b pre secs)) counts =
+    Ok (mkAdoc (Some b) (styles_map sts)
+               (map (fun ev => event_item ev (styles_map sts)) (filter is_dialogue (flat_map asec_events secs)))).
+Proof. exact read_sections_all_ssa_within. Qed.
+Print Assumptions C04_read_sections_all_within_limit.
+
+Theorem C04_eol_within_limit : forall (max : nat) e (ls : list str) counts, (0 < max)%nat -> eol_ok e ->
+  Forall brkfree ls -> lines_within max ls -> read_ssa_lim max (render_eol e ls) counts = read_ssa_lines ls false.
+Proof. exact read_ssa_lim_eol. Qed.
+Print Assumptions C04_eol_within_limit.
+
+Theorem C04_written_lines_within_limit : forall (max : nat) d, lines_within max (info_lines (canon_info d)) ->
+  (ad_styles d = [] \/ lines_within max (styles_lines (is_v4plus d) (doc_styles d))) ->
+  lines_within max (events_lines (is_v4plus d) (ad_items d)) -> lines_within max (doc_lines d).
+Proof. exact ssa_doc_lines_within. Qed.
+Print Assumptions C04_written_lines_within_limit.
+
+Theorem C04_event_row_length : forall v4p i,
+  (List.length (n_dialogue_pfx ++ event_string (event_of_item i) (event_format v4p)) <= ssa_row_len v4p i)%nat.
+Proof. exact event_row_length. Qed.
+Print Assumptions C04_event_row_length.
+
+Theorem C04_event_rows_within_limit : forall (max : nat) v4p items, (82 <= max)%nat ->
+  Forall (fun i => (ssa_row_len v4p i + 2 <= max)%nat) items -> lines_within max (events_lines v4p items).
+Proof. exact ssa_events_within. Qed.
+Print Assumptions C04_event_rows_within_limit.
+
+Theorem C04_refused_beyond_limit : forall (max : nat) d, styles_repr (ad_styles d) (doc_styles d) -> ad_items d <> [] ->
+  Forall brkfree (doc_lines d) -> line_beyond_lf max (doc_lines d) ->
+  exists data, write_ssa d (style_keys d) = Ok data /\ forall counts, exists k, read_ssa_lim max data counts = Err k.
+Proof. exact write_ssa_beyond. Qed.
+Print Assumptions C04_refused_beyond_limit.
+
+(* the bound is needed and sharp: a_adoc n = no script info, no styles, one event with one line of n letters a; the row has
+   52 + n bytes, the Format line 80; representable for every n > 0, read back iff 52 + n + 1 <= max, for every buffer size
+   above the Format line and every schedule *)
+Theorem C04_line_bound_sharp : forall (max : nat) (n : N), (81 <= max)%nat -> (0 < n)%N ->
+  doc_repr (a_adoc n) /\
+  exists data, write_ssa (a_adoc n) (style_keys (a_adoc n)) = Ok data /\ read_ssa data = Ok (canon_doc (a_adoc n)) /\
+    ((52 + N.to_nat n + 1 <= max)%nat -> forall counts, read_ssa_lim max data counts = Ok (canon_doc (a_adoc n))) /\
+    ((max < 52 + N.to_nat n + 1)%nat -> forall counts, exists k, read_ssa_lim max data counts = Err k).
+Proof. exact ssa_line_bound_sharp. Qed.
+Print Assumptions C04_line_bound_sharp.
+
+Theorem C04_real_line_bound :
+  doc_repr (a_adoc 65484) /\
+  (exists data, write_ssa (a_adoc 65483) (style_keys (a_adoc 65483)) = Ok data /\
+     forall counts, read_ssa_lim max_scan_token data counts = Ok (canon_doc (a_adoc 65483))) /\
+  (exists data, write_ssa (a_adoc 65484) (style_keys (a_adoc 65484)) = Ok data /\ read_ssa data = Ok (canon_doc (a_adoc 65484)) /\
+     forall counts, exists k, read_ssa_lim max_scan_token data counts = Err k).
+Proof. exact ssa_real_line_bound_full. Qed.
+Print Assumptions C04_real_line_bound.
+
+Example C04_needs_line_bound :
+  map (@List.length byte) (lines (ssa_bytes (a_adoc 76))) = [13; 0; 8; 80; 128]%nat /\
+  read_ssa (ssa_bytes (a_adoc 76)) = Ok (canon_doc (a_adoc 76)) /\
+  read_ssa_lim 128 (ssa_bytes (a_adoc 76)) [] = Err EIO /\
+  read_ssa_lim 128 (ssa_bytes (a_adoc 76)) [7%nat; 0%nat; 100%nat] = Err EIO /\
+  lines_withinb 128 (lines (ssa_bytes (a_adoc 74))) = true /\
+  read_ssa_lim 128 (ssa_bytes (a_adoc 74)) [7%nat; 0%nat; 100%nat] = Ok (canon_doc (a_adoc 74)) /\
+  lines_withinb 128 (lines (ssa_bytes (a_adoc 75))) = false /\
+  read_ssa_lim 128 (ssa_bytes (a_adoc 75)) [7%nat; 0%nat; 100%nat] = Ok (canon_doc (a_adoc 75)) /\
+  read_ssa_lim 128 (render_eol [CR; LF] (lines (ssa_bytes (a_adoc 75)))) [7%nat; 0%nat; 100%nat] = Err EIO /\
+  read_ssa (render_eol [CR; LF] (lines (ssa_bytes (a_adoc 75)))) = Ok (canon_doc (a_adoc 75)).
+Proof. exact ssa_needs_line_bound. Qed.
+Example C04_real_line_bound_computed :
+  map (fun l => N.of_nat (List.length l)) (lines (ssa_bytes (a_adoc 65484))) = [13; 0; 8; 80; 65536]%N /\
+  read_ssa_lim max_scan_token (ssa_bytes (a_adoc 65484)) [] = Err EIO /\
+  read_ssa_lim max_scan_token (ssa_bytes (a_adoc 65484)) [max_scan_token; 0%nat] = Err EIO.
+Proof. exact ssa_real_line_bound_computed. Qed.
 (* ---- the model's literals are the constants of the Go source (Proofs/ConstTie.v, Gen/Consts.v regenerated from the
    repository on every run by tools/genconsts): the SSA/ASS separators, keywords and names the model spells out equal the
    NAMED package-level constants, struct tags and bidirectional-map entries of the source (literals inside function bodies and
